@@ -689,6 +689,45 @@ class Builtins:
             return I.equals(subj, v, f"{label} == {self.I.up(pat.value)}")
         if isinstance(pat, ast.MatchSingleton):
             return I.equals(subj, I.lift(pat.value), f"{label} is {pat.value}")
+        if isinstance(pat, ast.MatchMapping):
+            # case {"k": p, ...}: the subject is a mapping that has every key, each value matching its sub-pattern
+            if isinstance(subj, DictV):
+                for kx, sub in zip(pat.keys, pat.patterns):
+                    kv = I.eval(kx, fr)
+                    hit = None
+                    for k, v in subj.pairs:
+                        r = I.try_equals(kv, k)
+                        if r is True or (r is None and I.equals(kv, k)):
+                            hit = v
+                            break
+                    if hit is None or not self.match_pattern(hit, sub, fr, label):
+                        return False
+                if pat.rest is not None:
+                    used = [I.eval(kx, fr) for kx in pat.keys]
+                    fr.locals[pat.rest] = DictV([(k, v) for k, v in subj.pairs if not any(I.try_equals(k, u) is True for u in used)])
+                return True
+            if isinstance(subj, Unknown) and subj.meta.get("type") is None and pat.rest is None:
+                # an opaque subject: either a mapping with all these keys (values opaque), or not
+                keys = [I.eval(kx, fr) for kx in pat.keys]
+                if not I.run.assume(("match-mapping", subj.tag, tuple(I.expr_of(k) for k in keys)),
+                                    f"{label} is a mapping with keys {[I.expr_of(k) for k in keys]}"):
+                    return False
+                I.run.set_assumption(("isinstance", subj.tag, "dict"), True)
+                return all(self.match_pattern(self.subscript(subj, k, pat, fr), sub, fr, label) for k, sub in zip(keys, pat.patterns))
+            if isinstance(subj, Unknown) and subj.meta.get("type") is None:
+                raise I.unsupported("mapping pattern with **rest on an abstract subject", pat, fr)
+            return False        # None, strings, numbers, lists, objects: not mappings
+        if isinstance(pat, ast.MatchSequence):
+            if isinstance(subj, ListV) and subj.absorbed is not None:
+                raise I.unsupported("sequence pattern on an abstract list", pat, fr)
+            if isinstance(subj, (ListV, TupleV)):
+                if any(isinstance(x, ast.MatchStar) for x in pat.patterns):
+                    raise I.unsupported("sequence pattern with a star", pat, fr)
+                return len(subj.items) == len(pat.patterns) and all(
+                    self.match_pattern(x, sp, fr, label) for x, sp in zip(subj.items, pat.patterns))
+            if isinstance(subj, (Unknown, AbsList, SymBool)):
+                raise I.unsupported("sequence pattern on an abstract subject", pat, fr)
+            return False        # str is not a sequence for matching; None, numbers, mappings neither
         raise I.unsupported(f"pattern {type(pat).__name__}", pat, fr)
 
     # ------------------------------------------------------------------ list helpers
